@@ -333,3 +333,7 @@ func Flatten(root *yang.Entry) map[string]*Observed {
 	walk(root, nil)
 	return out
 }
+
+// Text and Names are exported for development tools.
+func Text(p *Prog) string    { return p.text() }
+func Names(p *Prog) []string { return p.names() }
